@@ -45,6 +45,38 @@ long shp_ldpc_constructor(uint32_t k, uint32_t r, uint32_t N1, uint32_t seed, ui
                           uint32_t *out_esis, long cap, int *extra);
 int shp_ldpc_available(void);
 
+/* probe_kern: symbol kernels (exported library functions) */
+int shp_kern_available(void);
+void shp_add_to_symbol(void *to, const void *from, uint32_t size);
+void shp_add_from_multiple(void *to, const void **from, uint32_t cnt, uint32_t size);
+void shp_add_to_multiple(void **to, const void *from, uint32_t cnt, uint32_t size);
+void shp_gf28_addmul1(uint8_t *dst, uint8_t *src, uint8_t c, int sz);
+void shp_gf24_addmul1(uint8_t *dst, uint8_t *src, uint8_t c, int sz);
+void shp_gf24_addmul1_compact(uint8_t *dst, uint8_t *src, uint8_t c, int sz);
+
+/* probe_rs8: private copy of the RS-2^8 translation unit (static kernel and generated tables) */
+int shp_rs8_available(void);
+void shp_rs8_addmul1(uint8_t *dst, uint8_t *src, uint8_t c, int sz);
+/* which: 0 exp (elem 1 byte), 1 log (int), 2 inverse (1 byte), 3 mul_table (1 byte, row stride in *stride) */
+int shp_rs8_table(int which, const void **p, size_t *elem_size, size_t *count, size_t *stride);
+
+/* probe_gf: precomputed tables of the GF(2^m) codec.
+ * which: 0 gf24 mul (16x16) 1 gf24 opt_mul (16x256) 2 gf24 inv 3 gf24 log 4 gf24 exp
+ *        5 gf28 mul (256x256) 6 gf28 inv 7 gf28 log 8 gf28 exp */
+int shp_gf_available(void);
+int shp_gf_table(int which, const void **p, size_t *elem_size, size_t *count);
+
+/* probe_rand */
+int shp_rand_available(void);
+void shp_srand(uint64_t s);
+uint64_t shp_rand(uint64_t maxv);
+int shp_seed_get(uint64_t *s);   /* 0 if the state variable is not reachable */
+int shp_seed_set(uint64_t s);
+
+/* probe_blk: eperftool blocking structure */
+int shp_blk_available(void);
+int shp_blk_compute(uint32_t B, uint32_t L, uint32_t E, uint32_t *out5); /* I, A_large, A_small, nb_blocks, status */
+
 #ifdef __cplusplus
 }
 #endif
